@@ -32,6 +32,11 @@ struct Case {
     actor_reacts_in_window: bool,
     requests: u8,
     rep: u8,
+    /// a different schedule: the first run is held between releasing the lock and sending its
+    /// done signal; a request starts a second run at once; a further request is deferred; then
+    /// the first run's (now stale) done signal is delivered while the second run is in progress
+    #[serde(default)]
+    stale_done: bool,
 }
 
 /// A new run normally starts within milliseconds of the previous one finishing; the periodic
@@ -44,7 +49,70 @@ fn harness_fail(what: &str) -> ! {
     std::process::exit(2)
 }
 
+fn run_stale_done(c: &Case) -> Outcome {
+    let c = c.clone();
+    net_rt(async move {
+        hooks::clear();
+        hooks::install_async();
+        hooks::install_sync_log();
+        let (relay_map, relay_url, relay) = match iroh::test_utils::run_relay_server().await {
+            Ok(x) => x,
+            Err(e) => harness_fail(&format!("relay server: {e}")),
+        };
+        let relay_config = relay_map.get(&relay_url).expect("relay config");
+        let h1 = hooks::arm_async("direct_addr:run_started");
+        let ep = match Endpoint::builder(presets::Minimal).relay_mode(RelayMode::Custom(relay_map.clone())).ca_tls_config(CaTlsConfig::insecure_skip_verify()).bind().await {
+            Ok(ep) => ep,
+            Err(e) => harness_fail(&format!("bind: {e}")),
+        };
+        if tokio::time::timeout(HARNESS_WAIT, h1.reached).await.is_err() { harness_fail("first run never started"); }
+        // run 1 finishes probing and releases the lock, but its done signal is held back
+        let hb = hooks::arm_async("direct_addr:before_done");
+        let _ = h1.release.send(());
+        if tokio::time::timeout(HARNESS_WAIT, hb.reached).await.is_err() { harness_fail("first run never reached its end"); }
+        // request A: the lock is free, run 2 starts at once and is held running
+        let h2 = hooks::arm_async("direct_addr:run_started");
+        ep.insert_relay(relay_url.clone(), relay_config.clone()).await;
+        if tokio::time::timeout(HARNESS_WAIT, h2.reached).await.is_err() { harness_fail("second run did not start on request"); }
+        // request(s) B: deferred behind run 2
+        let deferred = |e: &hooks::Event| e.name == "direct_addr:schedule_run" && e.detail == "deferred";
+        for _ in 0..c.requests { ep.insert_relay(relay_url.clone(), relay_config.clone()).await; }
+        if hooks::wait_events(deferred, c.requests as usize, HARNESS_WAIT).await.is_none() { harness_fail("requests during run 2 were not deferred"); }
+        // the stale done signal of run 1 arrives while run 2 holds the lock
+        let _ = hb.release.send(());
+        if hooks::wait_events(|e| e.name == "direct_addr:try_run" && e.detail == "locked", 1, HARNESS_WAIT).await.is_none() { harness_fail("actor did not react to the stale done signal"); }
+        // run 2 finishes
+        let _ = h2.release.send(());
+        if hooks::wait_events(|e| e.name == "netreport:run_finish", 2, HARNESS_WAIT).await.is_none() { harness_fail("second run never finished"); }
+        let third = hooks::wait_events(|e| e.name == "netreport:run_start", 3, RESTART_BOUND).await;
+        let mut running = 0i32;
+        let mut overlap = None;
+        for e in hooks::events() {
+            match e.name.as_str() {
+                "netreport:run_start" => { running += 1; if running > 1 { overlap = Some(e.seq); } }
+                "netreport:run_finish" => running -= 1,
+                _ => {}
+            }
+        }
+        let log: Vec<String> = hooks::events().iter().map(|e| format!("{}({})", e.name, e.detail)).collect();
+        ep.close().await;
+        drop(relay);
+        hooks::clear();
+        hooks::uninstall_sync();
+        if let Some(seq) = overlap {
+            return Outcome::violation("C25:overlapping-runs", format!("two net report runs in progress at event #{seq}; events {log:?}"));
+        }
+        if third.is_none() {
+            return Outcome::violation("C25:update-dropped-by-stale-done", format!("an update requested while run 2 was in progress (x{}) was not started within {}s of run 2 finishing, after the stale done signal of run 1 had been handled during run 2; events: {log:?}", c.requests, RESTART_BOUND.as_secs()));
+        }
+        Outcome::pass_with(true, vec!["stale-done"])
+    })
+}
+
 fn run_case(c: &Case) -> Outcome {
+    if c.stale_done {
+        return run_stale_done(c);
+    }
     let c = c.clone();
     net_rt(async move {
         hooks::clear();
@@ -150,9 +218,14 @@ pub fn run(ctx: &Ctx) {
         for request_at in [RequestAt::DuringRun, RequestAt::InDoneWindow, RequestAt::AfterRelease] {
             for actor_reacts_in_window in [true, false] {
                 for requests in [1u8, 2] {
-                    cases.push(Case { request_at, actor_reacts_in_window, requests, rep });
+                    cases.push(Case { request_at, actor_reacts_in_window, requests, rep, stale_done: false });
                 }
             }
+        }
+    }
+    for rep in 0..reps {
+        for requests in [1u8, 2] {
+            cases.push(Case { request_at: RequestAt::DuringRun, actor_reacts_in_window: true, requests, rep, stale_done: true });
         }
     }
     ctx.enumerate("schedules", cases, run_case);
